@@ -197,6 +197,13 @@ func c20Measure(s c20Shape, warm string, only string) (allocating []string, nops
 	for _, x := range s.Suffix {
 		if x == "FP" {
 			ops = append(ops, op{"Fingerprint.Check", func() { _ = stun.Fingerprint.Check(m) }})
+			if key != nil {
+				// the batch helper, checkers in both orders (the slices are built once, outside the measurement)
+				miFP := []stun.Checker{key, stun.Fingerprint}
+				fpMI := []stun.Checker{stun.Fingerprint, key}
+				ops = append(ops, op{"Message.Check(integrity, fingerprint)", func() { _ = m.Check(miFP...) }})
+				ops = append(ops, op{"Message.Check(fingerprint, integrity)", func() { _ = m.Check(fpMI...) }})
+			}
 		}
 	}
 	for _, o := range ops {
@@ -227,6 +234,9 @@ func c20Measure(s c20Shape, warm string, only string) (allocating []string, nops
 // (the HMAC scratch behind the message), so they share one key there.
 func c20Key(name, warm string) string {
 	if warm == "same" {
+		if strings.HasPrefix(name, "Message.Check(") {
+			name = "MessageIntegrity.Check" // the batch helper runs that very check: same call site, same scratch
+		}
 		return "allocates/" + strings.TrimSuffix(name, "/mismatch") + "/only-without-spare-capacity"
 	}
 	return "allocates/" + name
